@@ -321,7 +321,8 @@ def run_task(task):
         res.evaluations += 1
         check_case(c, case, res)
 
-    hyp.campaign(case_strategy(), oracle, task["n"], task["seed"], res)
+    if hyp.campaign(case_strategy(), oracle, task["n"], task["seed"], res) is not None:
+        wrgen.minimise_last_violation(res, in_domain, lambda case: check_case(c, case))
     return res
 
 
